@@ -167,7 +167,7 @@ impl<const K: usize> Pack<K> {
         }
         self.len += 1;
     }
-    /// loop-free for up to 24 bytes per call (longer updates set `over`): a per-byte loop here would
+    /// loop-free for up to 56 bytes per call (longer updates set `over`): a per-byte loop here would
     /// force a global unwind bound of 20+ on every other loop of the harness
     pub fn push(&mut self, data: &[u8]) {
         let n = data.len();
@@ -202,7 +202,39 @@ impl<const K: usize> Pack<K> {
         at!(21);
         at!(22);
         at!(23);
-        if n > 24 {
+        at!(24);
+        at!(25);
+        at!(26);
+        at!(27);
+        at!(28);
+        at!(29);
+        at!(30);
+        at!(31);
+        at!(32);
+        at!(33);
+        at!(34);
+        at!(35);
+        at!(36);
+        at!(37);
+        at!(38);
+        at!(39);
+        at!(40);
+        at!(41);
+        at!(42);
+        at!(43);
+        at!(44);
+        at!(45);
+        at!(46);
+        at!(47);
+        at!(48);
+        at!(49);
+        at!(50);
+        at!(51);
+        at!(52);
+        at!(53);
+        at!(54);
+        at!(55);
+        if n > 56 {
             self.over = true;
         }
     }
